@@ -52,6 +52,9 @@ type c01Case struct {
 	// have committees, executor commitments for BOTH are put into the same block, so that
 	// RuntimesToFinalize (roothash/api/block.go) has two entries to order.
 	Runtimes bool `json:"runtimes,omitempty"`
+	// Upgrade: every replica has an upgrade backend with a consensus upgrade due inside the
+	// history; its migration writes state in EndBlock (before the system-tx validation).
+	Upgrade bool `json:"upgrade,omitempty"`
 	// informational
 	Height  int64    `json:"height,omitempty"`
 	Replica string   `json:"replica,omitempty"`
@@ -78,6 +81,7 @@ type c01Run struct {
 	tie    bool
 	procs  bool
 	rts    bool
+	upg    bool
 	rtStage int
 	cnode  *muxdrv.Validator
 	twins  []*twin
@@ -130,7 +134,20 @@ func coqTxs(txs [][]byte) string {
 
 // ---------- the run ----------
 
+// upgradeHeight: the upgrade is due when this height is committed (the migration runs in the next block).
+func upgradeHeight(seed uint64) int64 { return 3 + int64(seed%5) }
+
 func (c *c01Run) configs() []muxdrv.ReplicaConfig {
+	cfgs := c.baseConfigs()
+	if c.upg {
+		for i := range cfgs {
+			cfgs[i].Upgrade = &muxdrv.UpgradeSpec{AtHeight: upgradeHeight(c.seed)}
+		}
+	}
+	return cfgs
+}
+
+func (c *c01Run) baseConfigs() []muxdrv.ReplicaConfig {
 	g := c.g
 	return []muxdrv.ReplicaConfig{
 		{Name: "r0-mem-pathbadger", Backend: "pathbadger", Identity: g.Validators[0].Identity, SanityInterval: 1},
@@ -155,7 +172,7 @@ type violation struct {
 }
 
 func (c *c01Run) theCase() c01Case {
-	return c01Case{Seed: c.seed, Blocks: c.blocks, NoBackground: !c.bg, Tie: c.tie, Procs: c.procs, Runtimes: c.rts}
+	return c01Case{Seed: c.seed, Blocks: c.blocks, NoBackground: !c.bg, Tie: c.tie, Procs: c.procs, Runtimes: c.rts, Upgrade: c.upg}
 }
 
 func c01GenesisOpts(seed uint64, tie bool) muxdrv.GenesisOpts {
@@ -191,7 +208,7 @@ func (c *c01Run) run() *violation {
 	defer c.close()
 	if c.procs {
 		for i, cfg := range cfgs {
-			t, err := startTwin(c.seed, c.tie, c.rts, i, c.bg, cfg.Name)
+			t, err := startTwin(c.seed, c.tie, c.rts, c.upg, i, c.bg, cfg.Name)
 			if err != nil {
 				for _, t2 := range c.twins {
 					t2.close()
@@ -966,6 +983,9 @@ func (c *c01Run) block(b int) *violation {
 			c.sum.Count("tx_result", fmt.Sprintf("fail:%s/%d", t.Codespace, t.Code))
 		}
 	}
+	if c.upg && h == upgradeHeight(c.seed)+1 {
+		c.sum.Count("upgrade_block", fmt.Sprintf("executed on 4 replicas, paths %v", desc.Paths))
+	}
 	if c.rts {
 		okc := 0
 		for k, t := range ref.TxResults {
@@ -1178,7 +1198,7 @@ func (c *c01Run) background(i int, stop chan struct{}, wg *sync.WaitGroup) {
 
 // ---------- entry point ----------
 
-func c01Main(seed uint64, out string, blocks, runs int, replay string, noBg bool, tieRuns, tieBlocks, procRuns, rtRuns int) {
+func c01Main(seed uint64, out string, blocks, runs int, replay string, noBg bool, tieRuns, tieBlocks, procRuns, rtRuns, upgRuns int) {
 	sum := coqout.NewSummary("one evaluation = one block executed by one replica and compared; distinct_nontrivial = number of distinct (history, height) blocks that carry at least one user transaction, evidence, a non-unanimous vote pattern or an epoch transition (each executed on 4 replicas/paths)")
 	w := coqout.NewWriter(out, c01Header, "run_case", "coutput_eqb", 60)
 	var cases []c01Case
@@ -1202,14 +1222,17 @@ func c01Main(seed uint64, out string, blocks, runs int, replay string, noBg bool
 		cases = append(cases, cs)
 	} else {
 		for i := 0; i < runs; i++ {
-			cases = append(cases, c01Case{Seed: seed*1000 + uint64(i), Blocks: blocks, NoBackground: noBg, Procs: i < procRuns, Runtimes: i >= runs-rtRuns})
+			cases = append(cases, c01Case{Seed: seed*1000 + uint64(i), Blocks: blocks, NoBackground: noBg, Procs: i < procRuns, Runtimes: i >= runs-rtRuns, Upgrade: i < upgRuns})
 		}
 		for i := 0; i < tieRuns; i++ {
 			cases = append(cases, c01Case{Seed: seed*1000 + 500 + uint64(i), Blocks: tieBlocks, NoBackground: noBg, Tie: true, Procs: i < procRuns})
 		}
 	}
 	for _, cs := range cases {
-		run := &c01Run{seed: cs.Seed, blocks: cs.Blocks, bg: !cs.NoBackground, tie: cs.Tie, procs: cs.Procs, rts: cs.Runtimes, sum: sum, w: w}
+		run := &c01Run{seed: cs.Seed, blocks: cs.Blocks, bg: !cs.NoBackground, tie: cs.Tie, procs: cs.Procs, rts: cs.Runtimes, upg: cs.Upgrade, sum: sum, w: w}
+		if cs.Upgrade {
+			sum.Count("history_variant", "with-consensus-upgrade")
+		}
 		if cs.Runtimes {
 			sum.Count("history_variant", "with-two-runtimes")
 		}
